@@ -139,6 +139,9 @@ func DecodeESDescriptor(sr bits.SliceReader, descSize uint32) (ESDescriptor, err
 	if err != nil {
 		return ed, err
 	}
+	if exceedsMaxNrBytes(sizeFieldSizeMinus1, size, int(descSize)) {
+		return ed, fmt.Errorf("ESDescriptor size %d exceeds the %d bytes available", size, descSize)
+	}
 	ed.sizeFieldSizeMinus1 = sizeFieldSizeMinus1
 	dataStart := sr.GetPos()
 	ed.EsID = sr.ReadUint16()
